@@ -8,7 +8,9 @@ import (
 	"time"
 
 	"github.com/philpearl/avro"
+	avronull "github.com/philpearl/avro/null"
 	avrotime "github.com/philpearl/avro/time"
+	"github.com/unravelin/null/v5"
 )
 
 // Curated record types. Each round-trips on the pinned tree; shapes that the
@@ -122,6 +124,19 @@ type PtrSlices struct {
 	S  string    `json:"s"`
 }
 
+// Nulls uses the null.* wrappers, whose codecs the library's null sub-package
+// registers (nullable unions; strings and times go through the bank / the
+// timestamp parser).
+type Nulls struct {
+	ID int64       `json:"id"`
+	I  null.Int    `json:"i"`
+	B  null.Bool   `json:"b"`
+	F  null.Float  `json:"f"`
+	S  null.String `json:"s"`
+	T  null.Time   `json:"t"`
+	Z  string      `json:"z"`
+}
+
 type Mixed struct {
 	ID int64             `json:"id"`
 	S  string            `json:"s"`
@@ -188,6 +203,7 @@ func addType(d *TypeDesc) { typeTable[d.Name] = d }
 
 func init() {
 	avrotime.RegisterCodecs()
+	avronull.RegisterCodecs()
 	addType(desc[Flat]("Flat", false, false))
 	addType(desc[Ptrs]("Ptrs", false, false))
 	addType(desc[Nested]("Nested", false, false))
@@ -201,6 +217,7 @@ func init() {
 	addType(desc[Omit]("Omit", false, false))
 	addType(desc[PlainOmit]("PlainOmit", false, false))
 	addType(desc[PtrSlices]("PtrSlices", false, false))
+	addType(desc[Nulls]("Nulls", false, false))
 	addType(desc[Mixed]("Mixed", false, true))
 	addType(desc[Fixed]("Fixed", true, false))
 }
